@@ -33,7 +33,7 @@ a command gives up after 1.5 s (a pinned read after 0.8 s; on the minority side 
 read that RETURNED a value on a cut-off node is an acknowledged operation and must linearize like any other (a stale read from a
 leader that answers from its local keyspace shows here; the violation's excerpt names the first reply without an explanation and the
 writes acknowledged before it).  Unavailability of the minority side, the election after a heal and rafthttp's reconnect delay are not
-problems.  Quick tier: q-isolate-leader-3, q-isolate-follower-3, q-split-3 beside the main sequence (own harness processes); thorough
+problems.  Quick tier: q-isolate-leader-3, q-isolate-follower-3, q-split-3 (beside each other in their own harness processes, after the main sequence and the repros); thorough
 tier adds repeated and mixed partitions, 5 nodes, partition + kill, partition + snapshot.  The checks: no node exits on its own; one well-formed reply per command; every per-key history linearizable (porcupine;
 unknown-outcome commands may take effect at any later point or never); all nodes return the same value for every key at quiescence.
 Commands whose effect depends on the replica's clock or random source (relative TTLs, SPOP/SRANDMEMBER, XADD *) are kept out of the
